@@ -762,7 +762,7 @@ pub fn signed_bitmessage_to_buf(
     }
 
     // Advance past answer and authority records together.
-    let answer_authority_count = (counts.answers + counts.authorities) as usize;
+    let answer_authority_count = counts.answers as usize + counts.authorities as usize;
     let (_, _, sig) = Message::read_records(
         &mut decoder,
         answer_authority_count,
@@ -778,7 +778,11 @@ pub fn signed_bitmessage_to_buf(
         true,
         metadata.op_code,
     )?;
-    debug_assert!(sig.is_none());
+    if sig.is_some() {
+        return Err(ProtoError::from(
+            "TSIG signature record must be the last record of the message",
+        ));
+    }
     // Note the position of the decoder ahead of the final additional data TSIG record.
     let end_data = message.len() - decoder.len();
 
